@@ -93,6 +93,7 @@ fn tiny_par_scenario(seed: u64, idx: u64, faulty: bool) -> Scenario {
         hint: rng.flip(),
         label: format!("mini#{idx}"),
         short_reads: 0,
+        bare_eof: idx % 2 == 1,
     }
 }
 
